@@ -68,4 +68,6 @@ def run(prop, tier, seed, scratch, replay=None):
     if ev1.get("violations"):
         res.errors.append("address-manager part reported violations (see its VIOLATION lines above)")
     code2 = res.finish()
-    return max(res_code, code2) if 1 in (res_code, code2) or 2 in (res_code, code2) else 0
+    if 1 in (res_code, code2):
+        return 1          # a reproduced violation is reported even if another part of the run was unusable
+    return 2 if 2 in (res_code, code2) else 0
